@@ -1109,10 +1109,12 @@ class Elemwise(Blockwise):
         # Pad index to full length
         full_index = index + (slice(None),) * (len(out_ind) - len(index))
 
-        # Build sliced inputs
+        # Build sliced inputs.  where= / out= arrays take part in the operation
+        # block by block, so they are sliced like the other inputs (as
+        # _accept_shuffle does).
         new_args = []
-        for arg in self.elemwise_args:
-            if is_scalar_for_elemwise(arg):
+        for arg in (*self.elemwise_args, self.where, self.out):
+            if not hasattr(arg, "ndim") or is_scalar_for_elemwise(arg):
                 new_args.append(arg)
             else:
                 # Map output slice to this input's dimensions
@@ -1156,12 +1158,13 @@ class Elemwise(Blockwise):
                 sliced_arg = new_collection(arg)[tuple(arg_slices)]
                 new_args.append(sliced_arg.expr)
 
+        *new_args, new_where, new_out = new_args
         return Elemwise(
             self.op,
             self.operand("dtype"),
             self.operand("name"),
-            self.where,
-            self.out,
+            new_where,
+            new_out,
             self.operand("_user_kwargs"),
             *new_args,
         )
